@@ -78,7 +78,9 @@ def run(ctx):
                       lambda P_, f=f: must_pass(P_, 'ProposalApplier::apply_proposals_from_member', re.escape(f) + '$'), floor=1)
         for f in NEW_MEMBER_FILTERS:
             ctx.check('MUST-PASS', 'new-member pipeline: ' + f,
-                      lambda P_, f=f: must_pass(P_, 'ProposalApplier::apply_proposals_from_new_member', re.escape(f) + '$'), floor=1)
+                      lambda P_, f=f: must_pass(P_, 'ProposalApplier::apply_proposals_from_new_member',
+                                                # a module-private one-line forwarder may be inlined: what it forwards to counts as well
+                                                re.escape(f) + '$' + (r'|TreeKemPublic::add_leaf$' if f.endswith('insert_external_leaf') else '')), floor=1)
         ctx.check('MUST-PASS', 'tree changes: new leaves validated', lambda P_: must_pass(P_, 'ProposalApplier::apply_tree_changes', r'ProposalApplier::validate_new_nodes$'), floor=1)
         ctx.check('MUST-PASS', 'tree changes: batch edit', lambda P_: must_pass(P_, 'ProposalApplier::apply_tree_changes', r'TreeKemPublic::batch_edit$'), floor=1)
     if full:
